@@ -38,7 +38,7 @@ func c29run(c *rig.Ctx, schema bool) {
 	rig.Must(err)
 	defer srv.Stop()
 	l := newLimiter(c)
-	n := c.Pick(100, 1200)
+	n := c.Pick(80, 1000)
 	cnt := newCounters()
 	forCases(srv, n, 8, []string{"set @@dolt_dont_merge_json = 1"}, l.tooMany, func(i int, x *sqlrig.Session) {
 		r := c.SubRand("c29"+stage, i)
